@@ -50,6 +50,15 @@ def drive_stack(pest, h):
         got = list(s)
         if got != exp:
             return i, f"after step {i} ({op}) visible contents {got}, reference {exp}"
+        # every way of reading the stack shows the same contents: slices (what PEEK[a..b] uses), indexing, iteration
+        try:
+            views = {"s[:]": list(s[:]), "s[0:1]+s[1:]": list(s[0:1]) + list(s[1:]), "s[-1:]": list(s[-1:]), "[s[j]]": [s[j] for j in range(len(s))], "s[:-1]": list(s[:-1])}
+        except Exception as e:  # noqa: BLE001
+            return i, f"after step {i} ({op}) reading the stack by slice / index raised {type(e).__name__}: {e}"
+        wantv = {"s[:]": exp, "s[0:1]+s[1:]": exp, "s[-1:]": exp[-1:], "[s[j]]": exp, "s[:-1]": exp[:-1]}
+        if views != wantv:
+            bad = next(k for k in views if views[k] != wantv[k])
+            return i, f"after step {i} ({op}) {bad} shows {views[bad]}, reference {wantv[bad]} (list(s) agrees with the reference)"
         if len(s) != len(exp) or s.empty() != (not exp):
             return i, f"after step {i} ({op}) len/empty disagree with contents"
         if exp and s.peek() != exp[-1]:
@@ -60,7 +69,7 @@ def drive_stack(pest, h):
 def drive_int(pest, h):
     from pest.checkpoint_int import SnapshottingInt  # noqa: PLC0415
 
-    v = SnapshottingInt()
+    v = SnapshottingInt(h["start"]) if h.get("start") else SnapshottingInt()  # the documented constructor argument; default 0
     for i, (op, exp) in enumerate(zip(h["ops"], h["exp"])):
         try:
             if op == "inc":
